@@ -98,6 +98,19 @@ def run(ctx):
                 "perturbed specs, the malformed stream and the repository data files (correspondence only). "
                 "non-trivial = distinct WF line with >= 1 attribute")
     res.constants_checked = pc.parser_constants(ctx, res)
+    # history: a line with every reserved character printed once while constants.ignore_url_escape_characters is on,
+    # then the switch goes back to its default - everything below runs under the default and must not be affected
+    # (this runs FIRST, so the reserved characters are met for the first time while the switch is on)
+    from gffutils import constants, parser as _parser
+    from gffutils.feature import feature_from_line as _ffl
+    try:
+        constants.ignore_url_escape_characters = True
+        raw = "".join(c for c in sorted(getattr(_parser, "_to_quote", "%;=&,")) if c not in "\t\n\r;=,")
+        str(_ffl("c\ts\tt\t1\t2\t.\t+\t.\tID=a" + raw + "b;Note=x%y&z", keep_order=True))
+    except Exception:
+        pass
+    finally:
+        constants.ignore_url_escape_characters = False
     n = 6000 if not ctx.thorough else 80000
     specs = dimension_specs(r) + [gen_spec.rand_spec(r, valid=(i % 5 != 0)) for i in range(n)]
     rows = pc.run_specs(ctx, specs)
